@@ -60,6 +60,15 @@ def configs(tier, seed):
                             extra["wvals"] = [["1/2", "3", "1"], ["3", "3", "1/2"], ["1", "0", "2"]][i % 3][:n_]
                         out.append(C03._base(n_, dims, 2, [0] * len(dims), "sum", weights=wf, ignore=ignore, fmt=fmt, K=K,
                                              fact=fact, stat=stat, force2d=(K == 1 and stat == "stddev" and i % 4 == 0), **extra))
+    # minimum / maximum of datetime64 facts (NaT-marked or with a validity array), both report formats
+    for stat in ("max", "min"):
+        for ignore in (False, True):
+            for fmt in ("nan", "pair"):
+                for fact in ("dt", "dtpair"):
+                    i += 1
+                    if tier == "quick" and (i % 2) and fmt == "pair":
+                        continue
+                    out.append(C03._base(N, [[]], 2, [0], "sum", weights="none", ignore=ignore, fmt=fmt, K=1, fact=fact, stat=stat))
     if tier == "thorough":
         for stat in ("stddev", "quantile"):
             for ignore in (False, True):
@@ -85,6 +94,14 @@ def concrete_structure_inputs(data, cats, fvalid, wvalid):
         fact = arr([SReal(data.vt[r][k], False, False) if fvalid[r][k] else float("nan") for r in range(N) for k in range(K)], fl, shape)
     elif form == "pair":
         fact = (arr([SReal(data.vt[r][k], False if fvalid[r][k] else data.hidden_nan[r][k], False) for r in range(N) for k in range(K)], fl, shape),
+                arr([bool(fvalid[r][k]) for r in range(N) for k in range(K)], bool, shape))
+    elif form == "dt":
+        # datetime64[D] facts, NaT-marked: integer day counts, NaT carried by the NaN flag
+        fact = arr([SReal(data.vt[r][k], False, False, True) if fvalid[r][k] else float("nan") for r in range(N) for k in range(K)],
+                   rnp.dtype("M8[D]"), shape)
+    elif form == "dtpair":
+        fact = (arr([SReal(data.vt[r][k], False if fvalid[r][k] else data.hidden_nan[r][k], False, True) for r in range(N) for k in range(K)],
+                    rnp.dtype("M8[D]"), shape),
                 arr([bool(fvalid[r][k]) for r in range(N) for k in range(K)], bool, shape))
     else:
         fact = (arr([SReal(data.vt[r][k], False, False, True) for r in range(N) for k in range(K)], rnp.int64, shape),
